@@ -467,17 +467,17 @@ const SUPERSCRIPT_DIGITS: [char; 10] = ['⁰', '¹', '²', '³', '⁴', '⁵', '
 fn parse_power_number(input: &str) -> FResult<(Vec<u64>, &str)> {
 	let mut digits: Vec<u64> = Vec::new();
 
-	let (mut ch, mut input) = parse_char(input)?;
-	while let Some((idx, _)) = SUPERSCRIPT_DIGITS
-		.iter()
-		.enumerate()
-		.find(|(_, x)| **x == ch)
-	{
-		digits.push(idx as u64);
-		if input.is_empty() {
+	// the first character must exist (the caller has looked at it)
+	parse_char(input)?;
+	let mut input = input;
+	// consume superscript digits only: the character after them belongs to
+	// the rest of the input
+	while let Ok((ch, remaining)) = parse_char(input) {
+		let Some(idx) = SUPERSCRIPT_DIGITS.iter().position(|x| *x == ch) else {
 			break;
-		}
-		(ch, input) = parse_char(input)?;
+		};
+		digits.push(idx as u64);
+		input = remaining;
 	}
 
 	Ok((digits, input))
